@@ -42,19 +42,19 @@ pub fn check_curve(stats: &mut Stats, w: &Cub, class: &str, split_t: f64) {
             Outcome::Hang => { stats.fail("C19", &format!("hang.curve_length.{}", class), &format!("{} no result after {} s", desc, TIMEOUT)); continue; }
         };
         if !len.is_finite() { stats.fail("C19", &format!("length.non_finite.{}", class), &format!("{} length={:?}", desc, len)); continue; }
-        if (lch - ch).abs() > 1e-9 || (lpoly - poly).abs() > 1e-9 { stats.fail("C19", &format!("length.chord_or_polygon_helper_wrong.{}", class), &format!("{} chord_length={:?} want {:?} control_polygon_length={:?} want {:?}", desc, lch, ch, lpoly, poly)); }
-        if len < ch - 1e-9 { stats.fail("C19", &format!("length.below_chord.{}.{}", ename, class), &format!("{} length={:?} chord={:?} (true length {:?})", desc, len, ch, truth)); }
-        if len > poly + 1e-9 { stats.fail("C19", &format!("length.above_polygon.{}.{}", ename, class), &format!("{} length={:?} polygon={:?} (true length {:?})", desc, len, poly, truth)); }
-        if (len - lrev).abs() > 1e-9 { stats.fail("C19", &format!("length.reverse.{}.{}", ename, class), &format!("{} length={:?} reversed={:?} difference={:e}", desc, len, lrev, len - lrev)); }
+        if gt((lch - ch).abs(), 1e-9) || gt((lpoly - poly).abs(), 1e-9) { stats.fail("C19", &format!("length.chord_or_polygon_helper_wrong.{}", class), &format!("{} chord_length={:?} want {:?} control_polygon_length={:?} want {:?}", desc, lch, ch, lpoly, poly)); }
+        if lt(len, ch - 1e-9) { stats.fail("C19", &format!("length.below_chord.{}.{}", ename, class), &format!("{} length={:?} chord={:?} (true length {:?})", desc, len, ch, truth)); }
+        if gt(len, poly + 1e-9) { stats.fail("C19", &format!("length.above_polygon.{}.{}", ename, class), &format!("{} length={:?} polygon={:?} (true length {:?})", desc, len, poly, truth)); }
+        if gt((len - lrev).abs(), 1e-9) { stats.fail("C19", &format!("length.reverse.{}.{}", ename, class), &format!("{} length={:?} reversed={:?} difference={:e}", desc, len, lrev, len - lrev)); }
         match acc {
             Some(tol) => {
                 // the polyline is a lower bound of the arc length with an error far below the tolerances (re-checked with 4x the segments before a failure is reported)
                 if (len - truth).abs() > *tol {
                     let finer = polyline_length(w, 80000);
-                    if (len - finer).abs() > *tol { stats.fail("C19", &format!("length.accuracy_{}.{}", ename, class), &format!("{} length={:?} true={:?} (80000 segments: {:?}) error={:e} allowed={:e}", desc, len, truth, finer, len - finer, tol)); }
+                    if gt((len - finer).abs(), *tol) { stats.fail("C19", &format!("length.accuracy_{}.{}", ename, class), &format!("{} length={:?} true={:?} (80000 segments: {:?}) error={:e} allowed={:e}", desc, len, truth, finer, len - finer, tol)); }
                 }
-                if (len - lsplit).abs() > *tol { stats.fail("C19", &format!("length.additivity.{}.{}", ename, class), &format!("{} length={:?} sum of halves={:?} difference={:e} allowed={:e}", desc, len, lsplit, len - lsplit, tol)); }
-                else if (len - lsplit_own).abs() > *tol { stats.fail("C19", &format!("length.additivity.{}.{}", ename, class), &format!("{} length={:?} sum of halves (de Casteljau halves {} and {})={:?} difference={:e} allowed={:e}", desc, len, fmt_cub(&rl), fmt_cub(&rr), lsplit_own, len - lsplit_own, tol)); }
+                if gt((len - lsplit).abs(), *tol) { stats.fail("C19", &format!("length.additivity.{}.{}", ename, class), &format!("{} length={:?} sum of halves={:?} difference={:e} allowed={:e}", desc, len, lsplit, len - lsplit, tol)); }
+                else if gt((len - lsplit_own).abs(), *tol) { stats.fail("C19", &format!("length.additivity.{}.{}", ename, class), &format!("{} length={:?} sum of halves (de Casteljau halves {} and {})={:?} difference={:e} allowed={:e}", desc, len, fmt_cub(&rl), fmt_cub(&rr), lsplit_own, len - lsplit_own, tol)); }
                 stats.count(&format!("abs_error.{}.{}", ename, if (len - truth).abs() <= tol / 100.0 { "le_1pct_of_allowed" } else if (len - truth).abs() <= tol / 10.0 { "le_10pct_of_allowed" } else if (len - truth).abs() <= *tol { "le_allowed" } else { "gt_allowed" }));
             }
             None => stats.count("e1e-4.bracket_and_reverse_only"),
